@@ -20,7 +20,7 @@ ASSUMPTIONS = ["scheduler runtime 0", "no preemption", "which of two equal-prior
 
 
 def clock_worlds(tier):
-    return specs.worlds(max_jobs=6, max_runtime=4, contention=True, flags=specs.sim_flags(variance=True))
+    return specs.worlds(max_jobs=6, max_runtime=4, contention=True, flags=specs.sim_flags(variance=True), ms_runtime=True)
 
 
 CHECKS = [
